@@ -255,6 +255,13 @@ def gen_upstream_close(rng, setup):
     """upstream data, then upstream EOF at some point, client reads at its own pace"""
     mx = rng.choice([None, 1, 3, 8, 0])
     pfail = rng.choice([0.0, 0.0, 0.04])
+    if setup == 'http' and rng.random() < 0.7:
+        # a structured response stream (every framing, Connection: close / keep-alive / absent), cut at
+        # structural boundaries and at random positions, then the upstream close and the final flush
+        data, bounds = R.structured_stream(rng)
+        segs = R.struct_cut(rng, data, bounds)
+        tail = R.rnd_bytes(rng, rng.randint(1, 20)) if rng.random() < 0.4 else None
+        return R.relay_case('http', R.stream_schedule(rng, segs, tail, eof=True), rng.choice([None, None, 3, 8]))
     pre = R.gen_ticks(rng, rng.randint(1, 8), pfail, lambda: R.small_spec(rng), lambda: R.small_spec(rng),
                       client_data=(setup == 'tunnel'))
     eof = [[R.gen_flags(rng, 0.0)[0] + rng.choice('01') + rng.choice('01') + '1' + rng.choice('01'),
